@@ -43,17 +43,24 @@ def ensure_registered():
         return
     from prettyprinter import register_pretty, pretty_call
 
+    def boom(value):
+        # exception texts are arbitrary: braces, percent signs, backslashes, line breaks for the
+        # objects with an even index
+        if value.idx % 2:
+            return 'boom-%d' % value.idx
+        return 'boom-%d {field} {} {0 } %%s %%(x)s \\ \n {{' % value.idx
+
     @register_pretty(GObj)
     def gobj_printer(value, ctx):
         if value.fault == 'raise':
-            raise EXC_CLASSES[value.exc]('boom-%d' % value.idx)
+            raise EXC_CLASSES[value.exc](boom(value))
         if value.fault == 'abort':
             raise Abort('abort-%d' % value.idx)
         if value.fault == 'nondoc':
             return 42
         doc = pretty_call(ctx, valgen.call_target(value.cname), *value.args)
         if value.fault == 'after':
-            raise EXC_CLASSES[value.exc]('boom-%d' % value.idx)
+            raise EXC_CLASSES[value.exc](boom(value))
         return doc
 
     @register_pretty(Marker)
